@@ -67,6 +67,44 @@ Proof. change (ip_call (VFun (of_string "finditer")) (VList [HRX; vstr l])) with
 Lemma c_group0 h l a b : ip_call (VFun (of_string "group")) (VList [VTuple [h; vstr l; VInt (Z.of_nat a); VInt (Z.of_nat b)]; VInt 0]) = Normal (vstr (substr l a b)).
 Proof. change (ip_call (VFun (of_string "group")) ?x) with (sub_call rx_of_ip (VFun (of_string "group")) x). apply call_group0. Qed.
 
+(* what the two theorems below use of the dispatcher, so that they hold for any dispatcher that answers these calls this way *)
+Definition ip_contract (pc : pyval -> pyval -> PyLib.res) (hrx : pyval) : Prop :=
+  (forall o m, pc (VFun (of_string "make_addr")) (VList [o; vstr m]) = match parse_ip m with Some x => Normal (VAddr (if v6 then 6 else 4) (Z.of_N x)) | None => Exc (ValueError []) end) /\
+  (forall a x, same_static t a -> pc (VFun (of_string "should_anonymize")) (VList [eip v6 a; VInt (Z.of_N x)]) = Normal (VBool (if v6 then true else should_anonymize4 a x))) /\
+  (forall a x, same_static t a -> pc (VFun (of_string "anonymize")) (VList [eip v6 a; VInt (Z.of_N x)]) =
+     match anonymize_int a x with Ok (an', y) => Normal (VTuple [VInt (Z.of_N y); eip v6 an']) | Err => Exc KeyError end) /\
+  (forall a x, same_static t a -> pc (VFun (of_string "deanonymize")) (VList [eip v6 a; VInt (Z.of_N x)]) =
+     match deanonymize_int a x with Ok (an', y) => Normal (VTuple [VInt (Z.of_N y); eip v6 an']) | Err => Exc KeyError end) /\
+  (forall o y, pc (VFun (of_string "make_addr_from_int")) (VList [o; VInt (Z.of_N y)]) = Normal (vstr (print_ip y))) /\
+  (forall a, pc (VFun (of_string "get_addr_pattern")) (VList [eip v6 a]) = Normal hrx) /\
+  (forall l, pc (VFun (of_string "finditer")) (VList [hrx; vstr l]) = Normal (VList (map (enc_match l hrx) (matches l (S (length l)) (if v6 then IPV6_RX else IPV4_RX) 0)))) /\
+  (forall l a b, pc (VFun (of_string "group")) (VList [VTuple [hrx; vstr l; VInt (Z.of_nat a); VInt (Z.of_nat b)]; VInt 0]) = Normal (vstr (substr l a b))).
+Lemma ip_call_contract : ip_contract ip_call HRX.
+Proof.
+  refine (conj _ (conj _ (conj _ (conj _ (conj _ (conj _ (conj _ _))))))); intros.
+  - apply c_make_addr.
+  - now apply c_should.
+  - now apply c_anon.
+  - now apply c_deanon.
+  - apply c_from_int.
+  - apply c_pattern.
+  - apply c_finditer.
+  - apply c_group0.
+Qed.
+
+Section P.
+Variable pc : pyval -> pyval -> PyLib.res.
+Variable hrx : pyval.
+Hypothesis Hpc : ip_contract pc hrx.
+Let p_make_addr := proj1 Hpc.
+Let p_should := proj1 (proj2 Hpc).
+Let p_anon := proj1 (proj2 (proj2 Hpc)).
+Let p_deanon := proj1 (proj2 (proj2 (proj2 Hpc))).
+Let p_from_int := proj1 (proj2 (proj2 (proj2 (proj2 Hpc)))).
+Let p_pattern := proj1 (proj2 (proj2 (proj2 (proj2 (proj2 Hpc))))).
+Let p_finditer := proj1 (proj2 (proj2 (proj2 (proj2 (proj2 (proj2 Hpc)))))).
+Let p_group0 := proj2 (proj2 (proj2 (proj2 (proj2 (proj2 (proj2 Hpc)))))).
+
 (* one match *)
 Lemma int_static a x a' y : same_static t a -> anonymize_int a x = Ok (a', y) -> same_static t a'.
 Proof. intros H. unfold anonymize_int. destruct (negb (in_range a x)); [discriminate|]. destruct (Memo.anonymize _ _ _ _ _) as [[d z]|]; [|discriminate]. intros [= <- _]. rewrite H. reflexivity. Qed.
@@ -75,20 +113,20 @@ Proof. intros H. unfold deanonymize_int. destruct (negb (in_range a x)); [discri
 
 Theorem gen_anonymize_match_refines fuel a m (undo : bool) : same_static t a ->
   match ip_match v6 undo (Done a) m with
-  | (Done a', out) => gen__anonymize_match ip_call fuel (eip v6 a) (vstr m) (VBool undo) = Normal (VTuple [vstr out; eip v6 a']) /\ same_static t a'
+  | (Done a', out) => gen__anonymize_match pc fuel (eip v6 a) (vstr m) (VBool undo) = Normal (VTuple [vstr out; eip v6 a']) /\ same_static t a'
   | (Raised _, _) => True
   end.
 Proof.
-  intro Hs. unfold ip_match, gen__anonymize_match. fold (parse_ip m). rewrite c_make_addr.
+  intro Hs. unfold ip_match, gen__anonymize_match. fold (parse_ip m). rewrite p_make_addr.
   destruct (parse_ip m) as [x|]; cbn [PyLib.bind py_try_ve PyLib.bindS call].
   2:{ split; [reflexivity|exact Hs]. }
-  cbn [py_int PyLib.bind]. rewrite (c_should a x Hs). cbn [PyLib.bind py_not truthy].
+  cbn [py_int PyLib.bind]. rewrite (p_should a x Hs). cbn [PyLib.bind py_not truthy].
   destruct (if v6 then true else should_anonymize4 a x); cbn [negb PyLib.bindS truthy call].
   2:{ split; [reflexivity|exact Hs]. }
   destruct undo; cbn [truthy PyLib.bindS PyLib.bind].
-  - rewrite (c_deanon a x Hs). destruct (deanonymize_int a x) as [[a' y]|] eqn:E; [|exact I]. cbn [PyLib.bind PyLib.bindS unpack2]. rewrite c_from_int. cbn [PyLib.bind py_str call]. unfold print_ip.
+  - rewrite (p_deanon a x Hs). destruct (deanonymize_int a x) as [[a' y]|] eqn:E; [|exact I]. cbn [PyLib.bind PyLib.bindS unpack2]. rewrite p_from_int. cbn [PyLib.bind py_str call]. unfold print_ip.
     split; [reflexivity|exact (deint_static a x a' y Hs E)].
-  - rewrite (c_anon a x Hs). destruct (anonymize_int a x) as [[a' y]|] eqn:E; [|exact I]. cbn [PyLib.bind PyLib.bindS unpack2]. rewrite c_from_int. cbn [PyLib.bind py_str call]. unfold print_ip.
+  - rewrite (p_anon a x Hs). destruct (anonymize_int a x) as [[a' y]|] eqn:E; [|exact I]. cbn [PyLib.bind PyLib.bindS unpack2]. rewrite p_from_int. cbn [PyLib.bind py_str call]. unfold print_ip.
     split; [reflexivity|exact (int_static a x a' y Hs E)].
 Qed.
 
@@ -99,18 +137,18 @@ Proof. induction ms as [|[[i j] c] ms IH]; cbn [run_cb]; [reflexivity|]. unfold 
 
 Theorem gen_anonymize_ip_addr_refines fuel a line (undo : bool) a' l : same_static t a ->
   anonymize_ip_line v6 undo a line = Done (a', l) ->
-  gen_anonymize_ip_addr ip_call fuel (eip v6 a) (vstr line) (VBool undo) = Normal (VTuple [vstr l; eip v6 a']).
+  gen_anonymize_ip_addr pc fuel (eip v6 a) (vstr line) (VBool undo) = Normal (VTuple [vstr l; eip v6 a']).
 Proof.
   intros Hs. unfold anonymize_ip_line, sub_fn. destruct (nullable (if v6 then IPV6_RX else IPV4_RX)); [discriminate|].
   change (fun (st : outcome anonymizer) (i j : nat) (_ : caps) => ip_match v6 undo st (substr line i j)) with (ip_cb undo line).
   rewrite sub_loop_fold. set (ms := matches line (S (slen line)) (if v6 then IPV6_RX else IPV4_RX) 0).
   destruct (run_cb (ip_cb undo line) (Done a) ms) as [st reps] eqn:Er. destruct st as [af|w]; [|discriminate]. intros [= <- <-].
-  unfold gen_anonymize_ip_addr. rewrite c_pattern. cbn [PyLib.bind]. rewrite c_finditer. change (matches line (S (length line)) (if v6 then IPV6_RX else IPV4_RX) 0) with ms.
+  unfold gen_anonymize_ip_addr. rewrite (p_pattern a). cbn [PyLib.bind]. rewrite p_finditer. change (matches line (S (length line)) (if v6 then IPV6_RX else IPV4_RX) 0) with ms.
   cbn [PyLib.bind py_iter].
   match goal with |- context [py_for _ ?b _] => set (B := b) end.
   assert (Hloop : forall ms0 a0 af0 reps0 acc j, same_static t a0 -> run_cb (ip_cb undo line) (Done a0) ms0 = (Done af0, reps0) ->
-            exists j', py_for (map (enc_match line HRX) ms0) B (eip v6 a0, vstr line, VBool undo, HRX, j, VList acc)
-                       = Normal (eip v6 af0, vstr line, VBool undo, HRX, j', VList (acc ++ map vstr reps0))).
+            exists j', py_for (map (enc_match line hrx) ms0) B (eip v6 a0, vstr line, VBool undo, hrx, j, VList acc)
+                       = Normal (eip v6 af0, vstr line, VBool undo, hrx, j', VList (acc ++ map vstr reps0))).
   { induction ms0 as [|[[i j0] c] ms0 IH]; intros a0 af0 reps0 acc j Hs0; cbn [run_cb map py_for].
     - intros [= <- <-]. rewrite app_nil_r. eauto.
     - unfold ip_cb at 1. pose proof (gen_anonymize_match_refines fuel a0 (substr line i j0) undo Hs0) as Hm.
@@ -118,15 +156,21 @@ Proof.
       2:{ pose proof (raised_absorbs undo line w ms0) as Hr. destruct (run_cb (ip_cb undo line) (Raised w) ms0) as [st2 reps2]. cbn [fst] in Hr. subst st2. discriminate. }
       destruct Hm as [Em Hs1]. destruct (run_cb (ip_cb undo line) (Done a1) ms0) as [st2 reps2] eqn:Er2. intros [= -> <-].
       unfold B at 1. cbv beta iota. cbn [enc_match].
-      replace (py_getitem (VTuple [VInt (Z.of_nat i); VInt (Z.of_nat j0); VTuple [HRX; vstr line; VInt (Z.of_nat i); VInt (Z.of_nat j0)]]) (VInt 2))
-        with (@Normal pyval (VTuple [HRX; vstr line; VInt (Z.of_nat i); VInt (Z.of_nat j0)])) by reflexivity.
-      cbn [PyLib.bind]. rewrite c_group0. cbn [PyLib.bind]. rewrite Em. cbn [PyLib.bind unpack2 py_list_append].
-      destruct (IH a1 af0 reps2 (acc ++ [vstr rep]) (VTuple [HRX; vstr line; VInt (Z.of_nat i); VInt (Z.of_nat j0)]) Hs1 Er2) as (j' & Ej). rewrite Ej.
+      replace (py_getitem (VTuple [VInt (Z.of_nat i); VInt (Z.of_nat j0); VTuple [hrx; vstr line; VInt (Z.of_nat i); VInt (Z.of_nat j0)]]) (VInt 2))
+        with (@Normal pyval (VTuple [hrx; vstr line; VInt (Z.of_nat i); VInt (Z.of_nat j0)])) by reflexivity.
+      cbn [PyLib.bind]. rewrite p_group0. cbn [PyLib.bind]. rewrite Em. cbn [PyLib.bind unpack2 py_list_append].
+      destruct (IH a1 af0 reps2 (acc ++ [vstr rep]) (VTuple [hrx; vstr line; VInt (Z.of_nat i); VInt (Z.of_nat j0)]) Hs1 Er2) as (j' & Ej). rewrite Ej.
       exists j'. cbn [map]. now rewrite <- app_assoc. }
   destruct (Hloop ms a af reps [] VNone Hs Er) as (j' & El). rewrite El. cbn [PyLib.bind app].
   rewrite py_stitch_refines.
   - reflexivity.
   - pose proof (run_cb_length (ip_cb undo line) ms (Done a)) as Hlen. rewrite Er in Hlen. exact Hlen.
 Qed.
+End P.
+
+Theorem gen_anonymize_ip_addr_refines_concrete fuel a line (undo : bool) a' l : same_static t a ->
+  anonymize_ip_line v6 undo a line = Done (a', l) ->
+  gen_anonymize_ip_addr ip_call fuel (eip v6 a) (vstr line) (VBool undo) = Normal (VTuple [vstr l; eip v6 a']).
+Proof. exact (gen_anonymize_ip_addr_refines ip_call HRX ip_call_contract fuel a line undo a' l). Qed.
 End L.
 
